@@ -51,7 +51,7 @@ CHECKS = {
            "Oracle: glob matches p <=> prefix joined with a remainder the postfix matches; postfix unrooted; re-partition identity; rebuild of the displayed postfix.",
     'C09': "Proved (partial, stated as such): soundness on the class of patterns all of whose expansions end in a tree wildcard; and the verdict itself for every flat "
            "rule-checked pattern not ending in a separator (C09_flat_always_sound: an Always verdict of the model of the pinned code means the last tree wildcard is "
-           "followed by `*` components only - C09_always_means_open_tail - and then everything beneath a matched path is matched; C09_built_flat_globs_always_sound: for flat globs that build the rule and parser side conditions are discharged); and for every glob that builds and has no repetition, however the alternations nest (C09_built_globs_without_repetitions_always_sound: every expansion is covered by a member of the term of the exhaustiveness fold, an unbounded member means a tree wildcard followed by separators and `*` only, the rule-checker theorems of C06 over expansions make that tail `*`, `*/*`, ...; excluded: the known class trailing_boundary); and with repetitions that are written out at least once and are bounded above or hold a bounded token (C09_built_globs_with_required_repetitions_always_sound: `<a:1,2>/**`, `<a/:1,>*/**/*`; upper bounds survive conjunction, finalisation and products by ranges bounded above; per expansion that respects the two adjacency rules; C09_built_globs_with_required_repetitions_always_sound_unconditionally discharges them by C06 with repetitions when the bodies begin and end with a leaf; C09_built_globs_with_plain_repetitions_always_sound: also optional repetitions that are bounded above with a body that holds no tree wildcard - their term has no unbounded member, C09_terms_of_tree_free_tokens_promise_nothing - which narrows the known class optional_repetition to repetitions whose own term is unbounded). Tie: is_exhaustive() and the negation's "
+           "followed by `*` components only - C09_always_means_open_tail - and then everything beneath a matched path is matched; C09_built_flat_globs_always_sound: for flat globs that build the rule and parser side conditions are discharged); and for every glob that builds and has no repetition, however the alternations nest (C09_built_globs_without_repetitions_always_sound: every expansion is covered by a member of the term of the exhaustiveness fold, an unbounded member means a tree wildcard followed by separators and `*` only, the rule-checker theorems of C06 over expansions make that tail `*`, `*/*`, ...; excluded: the known class trailing_boundary); and with repetitions that are written out at least once and are bounded above or hold a bounded token (C09_built_globs_with_required_repetitions_always_sound: `<a:1,2>/**`, `<a/:1,>*/**/*`; upper bounds survive conjunction, finalisation and products by ranges bounded above; per expansion that respects the two adjacency rules; C09_built_globs_with_required_repetitions_always_sound_unconditionally discharges them by C06 with repetitions when the bodies begin and end with a leaf; C09_built_globs_with_plain_repetitions_always_sound: also optional repetitions that are bounded above with a body that holds no tree wildcard - their term has no unbounded member, C09_terms_of_tree_free_tokens_promise_nothing - which narrows the known class optional_repetition to repetitions whose own term is unbounded); C09_contiguous_terms_reach_the_next_depth: the arithmetic of the repaired multiplication rule (13th repair). Tie: is_exhaustive() and the negation's "
            "exhaustive/non-exhaustive partition vs the model of the repaired sequencer. Oracle: for every Always verdict, descendants of matched canonical paths are matched.",
     'C10': "Proved (partial, stated as such; all patterns of the class x all canonical paths): every pattern without repetitions - alternations, concatenations, leaves "
            "and tree wildcards at any nesting - reports a depth variance that contains the component count of every matched canonical path "
